@@ -30,7 +30,9 @@ Definition exit_arg (a : string) : option nat :=
   else None.
 (* harness/argvchild started as program p: prints "p: " and its arguments joined by one space and a newline
    (nothing if one of them is --quiet), exits with N if its last argument of the form --exit=N says so (N decimal,
-   0..255).  No program found / not startable: nothing printed, sh.ExitStatus of the error is 1. *)
+   0..255); with an argument --kill it kills itself with a signal after printing: the call's error is not an
+   exit error, sh.ExitStatus says 1.  No program found / not startable: nothing printed, sh.ExitStatus of the
+   error is 1. *)
 Definition argvchild_out (t : lookup_tbl) (penv : list (string * string)) (argv : list string) : string :=
   match resolved t penv argv with
   | None => EmptyString
@@ -40,7 +42,8 @@ Definition argvchild_out (t : lookup_tbl) (penv : list (string * string)) (argv 
 Definition argvchild_exit (t : lookup_tbl) (penv : list (string * string)) (argv : list string) : nat :=
   match resolved t penv argv with
   | None => 1
-  | Some _ => fold_left (fun acc a => match exit_arg a with Some n => n | None => acc end) (tl argv) 0
+  | Some _ => if existsb (String.eqb "--kill") (tl argv) then 1
+              else fold_left (fun acc a => match exit_arg a with Some n => n | None => acc end) (tl argv) 0
   end.
 
 (* n copies of s: long "slow to expand" cells of concurrent cases are written (rep_str "${Z}" n) *)
